@@ -675,6 +675,31 @@ fn c11_constructors() {
 }
 
 // ---------------------------------------------------------------- default trait methods on a user sink
+/// Counting-only user sink: tracks nothing but the number of bits it is given.
+pub(crate) struct CountSink {
+    pub len: usize,
+}
+impl BitSink for CountSink {
+    type Error = std::convert::Infallible;
+    fn align_to_byte(&mut self) -> Result<usize, Self::Error> {
+        let pad = (8 - self.len % 8) % 8;
+        self.len += pad;
+        Ok(pad)
+    }
+    fn write_lsbs<T: Bits>(&mut self, _val: T, n: usize) -> Result<(), Self::Error> {
+        self.len += n;
+        Ok(())
+    }
+    fn write_msbs<T: Bits>(&mut self, _val: T, n: usize) -> Result<(), Self::Error> {
+        self.len += n;
+        Ok(())
+    }
+    fn write<T: Bits>(&mut self, _val: T) -> Result<(), Self::Error> {
+        self.len += 8 * std::mem::size_of::<T>();
+        Ok(())
+    }
+}
+
 /// Minimal user sink: implements only the four required methods, records the bits in a
 /// fixed 512-bit accumulator (no heap), can be told to fail on its k-th operation.
 pub(crate) struct RecSink {
